@@ -245,6 +245,6 @@ def case_products(rng: Any, ctx: Ctx, index: int) -> None:
 def run(ctx: Ctx) -> None:
     drive(ctx, case, 1600, 16000, stream=0, part='blocks')
     if ctx.part in (None, 'extra'):
-        drive(ctx, case_inverse, 300, 3000, stream=1)
-        drive(ctx, case_reject, 300, 3000, stream=2)
-        drive(ctx, case_products, 400, 4000, stream=3)
+        def extra(rng: Any, c: Ctx, index: int) -> None:
+            (case_inverse, case_reject, case_products)[index % 3](rng, c, index)
+        drive(ctx, extra, 1200, 12000, stream=1)
